@@ -3,7 +3,7 @@
     [sem] is ANY semantics of function bodies that depends on the code, the default parameter
     values and the values of the referenced names; editions are ANY programs. *)
 From Coq Require Import List Arith Bool.
-From Memento Require Import Version.Rules Version.RulesProofs Version.Stale Version.StaleProofs Gen.SourceFacts Gen.FactsOK.
+From Memento Require Import Version.Rules Version.RulesProofs Version.Stale Version.StaleProofs Gen.SourceFacts Gen.FactsC01.
 Import ListNotations.
 
 (** editions with the same reference structure (edits of bodies, constants, defaults, variable
